@@ -141,6 +141,18 @@ Theorem C37_failed_body_marks_all_refuted :
     has_marker (snd (do_step c mut rep (state_after c mut rep h) sp)) 1 = false.
 Proof. exact failed_body_marks_all_refuted. Qed.
 
+(* REFUTED outside the scope above (the storage changes a reference): "markers only for series
+   that stopped being exposed".  Two metric texts with one label set, both scraped; the storage
+   forgets the series; the next (accepted) scrape exposes one text with an explicit timestamp under
+   track_timestamps_staleness: the label set is stored AND gets a staleness marker at the scrape
+   time.  Reproduced on the real loop by corpus case alias-ref-change-timestamped. *)
+Theorem C37_alias_ref_change_marker_refuted :
+  exists c mut rep h sp l,
+    ~ step_failed c mut (state_after c mut rep h) sp /\
+    has_sample (snd (do_step c mut rep (state_after c mut rep h) sp)) l = true /\
+    has_marker (snd (do_step c mut rep (state_after c mut rep h) sp)) l = true.
+Proof. exact alias_ref_change_marker_refuted. Qed.
+
 (* non-vacuity: a history in scope with an accepted second body, duplicate lines, an explicit
    timestamp, non-empty tracked sets and a marker that is really emitted *)
 Example C37_nonvacuous :
